@@ -52,13 +52,22 @@ class Prop(SeqProp):
         for _ in range(n):
             ops = []
             for _ in range(rng.randint(3, 10)):
-                k = rng.choice(["argsort", "subseq", "search", "cmp", "batch", "batchiter", "batchiter2", "batchnew", "batchlen"])
+                k = rng.choice(["argsort", "subseq", "search", "cmp", "batch", "batchiter", "batchiter2", "batchnew", "batchlen",
+                                "subseqE", "searchE"])
                 alpha = rng.choice([2, 3])
                 seq = lambda m: [rng.randrange(alpha) for _ in range(rng.randint(0, m))]
                 s = lambda xs: " ".join(map(str, xs))
                 if k == "argsort":
                     keys = [rng.randint(-3, 3) for _ in range(rng.randint(0, 10))]
                     ops.append(f"argsort {rng.randint(0, 1)} {s(keys)}".rstrip())
+                elif k in ("subseqE", "searchE"):
+                    # elements whose equality is not reflexive (Model/GenericEq.lean): the numbers below n stand for NaN objects
+                    # (equal to nothing, found only as the same object), the others for ints
+                    n = rng.choice([1, 2])
+                    a, b = seq(3), seq(8)
+                    if rng.random() < 0.5 and len(b) >= 2:
+                        i = rng.randrange(len(b)); a = b[i:i + rng.randint(1, 3)]
+                    ops.append(f"{k} {n} | {s(a)} | {s(b)}".replace("  ", " ").replace("| |", "|  |").replace("|  |", "| |"))
                 elif k in ("subseq", "search", "cmp"):
                     a, b = seq(4), seq(8)
                     if k == "cmp" and rng.random() < 0.5:
@@ -125,6 +134,17 @@ class Prop(SeqProp):
                     out.append(f"ret {g.roman_2_int(w[1])}")
                 elif k == "argsort":
                     out.append("list " + s(g.arg_sort([int(x) for x in w[2:]], reverse=(w[1] == "1"))))
+                elif k in ("subseqE", "searchE"):
+                    parts = op.split("|")
+                    n = int(parts[0].split()[1])
+                    nans = {}
+                    el = lambda x: nans.setdefault(x, float("nan")) if x < n else x
+                    a, b = [el(int(x)) for x in parts[1].split()], [el(int(x)) for x in parts[2].split()]
+                    if k == "subseqE":
+                        r = g.sub_seq(a, b) if len(b) % 2 else g.sub_seq(tuple(a), tuple(b))
+                        out.append(f"ret {1 if r else 0}")
+                    else:
+                        out.append("list " + ",".join(f"{x}:{y}" for x, y in g.search_sub_seq(a, b)))
                 elif k in ("subseq", "search", "cmp"):
                     i = w.index("|")
                     a, b = [int(x) for x in w[1:i]], [int(x) for x in w[i + 1:]]
@@ -208,6 +228,15 @@ class Prop(SeqProp):
                 rev = w[1] == "1"
                 # stable in both directions: ties keep index order
                 exp = "list " + s(sorted(range(len(keys)), key=lambda j: (-keys[j] if rev else keys[j], j)))
+            elif k in ("subseqE", "searchE"):
+                parts = op.split("|")
+                a, b = [int(x) for x in parts[1].split()], [int(x) for x in parts[2].split()]
+                # the same object is always "equal" for list comparison, so occurrences are those of the numbers
+                occ = [(o, o + len(a)) for o in range(0, len(b) - len(a) + 1) if b[o:o + len(a)] == a]
+                if k == "subseqE":
+                    exp = f"ret {1 if occ else 0}"
+                else:
+                    exp = "err ValueError" if (not a or not b) else "list " + ",".join(f"{x}:{y}" for x, y in occ)
             elif k in ("subseq", "search", "cmp"):
                 j = w.index("|")
                 a, b = [int(x) for x in w[1:j]], [int(x) for x in w[j + 1:]]
